@@ -879,8 +879,8 @@ func TestC11(t *testing.T) {
 		"Second stream: DecodeProtobuf on non-canonical / malformed encodings against the Coq decoder")
 	initSyms()
 	cs := vh.NewCases(e, "From V Require Import lib.C11_DagPb model.M_C11.\nOpen Scope Z_scope.\n"+strings.Join(preambleDefs, "\n"), "case", "check_case", 250)
-	nRun := e.Pick(1000, 25000)
-	nDec := e.Pick(750, 15000)
+	nRun := e.Pick(1000, 12000)
+	nDec := e.Pick(750, 8000)
 	hs := corpus()
 	for i := 0; i < nRun; i++ {
 		var h history
